@@ -152,18 +152,36 @@ theorem good_add {d c1 c2 : Nat} {x1 x2 : F64} (h1 : Good d c1 x1) (h2 : Good d 
         rw [Nat.pow_succ, Nat.pow_succ, ← Nat.mul_assoc, ← Nat.mul_assoc]
         exact Nat.mul_le_mul (Nat.le_trans (Nat.mul_le_mul_right _ (by omega)) hn.2) P_le
 
-/-- the final, unguarded product `entry * 2.0.powi(var)`: either the guarded `scale` (and then the
-    invariant is kept for the count `c·2^v`), or the entry is `0.0`, the power overflowed (`v ≥ 1024`) and
-    the product is `0·inf = NaN` -/
-theorem good_final {d c : Nat} {x : F64} (h : Good d c x) (v : Nat) :
-    (x = fin 0 ∧ 1024 ≤ v ∧ c = 0 ∧ mulPow2 x v = nan) ∨
-    (mulPow2 x v = scale x v ∧ Good d (c * 2 ^ v) (mulPow2 x v)) := by
+/-- the guarded end of `cardinality` is `scale` by the root variable: the invariant is kept for the count
+    `c·2^v`, and the `NaN ↦ INFINITY` test never fires -/
+theorem good_finalF {d c : Nat} {x : F64} (h : Good d c x) (v : Nat) :
+    B.Count.finalF x v = scale x v ∧ Good d (c * 2 ^ v) (B.Count.finalF x v) := by
+  have hg := good_scale h v
+  have e : B.Count.finalF x v = scale x v := by
+    unfold B.Count.finalF
+    by_cases hz : x.isZero = true
+    · rw [if_pos hz]; unfold scale; rw [if_pos hz]
+    · rw [if_neg hz]
+      have hs : scale x v = mulPow2 x v := by unfold scale; rw [if_neg hz]
+      rw [hs] at hg
+      simp only
+      have hne := hg.ne_nan
+      rw [hs]
+      generalize mulPow2 x v = r at *
+      cases r with
+      | nan => exact absurd rfl hne
+      | inf => rfl
+      | fin s => rfl
+  exact ⟨e, by rw [e]; exact hg⟩
+
+/-- the unguarded end of the function before commit 316b6bb: either the same as the guarded one, or the
+    entry is `0.0`, the power overflowed (`v ≥ 1024`) and `0·inf = NaN ↦ INFINITY` -/
+theorem good_finalUnguarded {d c : Nat} {x : F64} (h : Good d c x) (v : Nat) :
+    (x = fin 0 ∧ 1024 ≤ v ∧ c = 0 ∧ B.Count.finalUnguarded x v = inf) ∨
+    (B.Count.finalUnguarded x v = B.Count.finalF x v) := by
   cases x with
   | nan => exact h.elim
-  | inf =>
-    right
-    have e : mulPow2 inf v = scale inf v := by rw [scale_inf, mulPow2_inf]
-    exact ⟨e, by rw [e]; exact good_scale h v⟩
+  | inf => right; unfold B.Count.finalUnguarded B.Count.finalF; simp [isZero]
   | fin s =>
     by_cases hs : s = 0
     · subst hs
@@ -174,16 +192,21 @@ theorem good_final {d c : Nat} {x : F64} (h : Good d c x) (v : Nat) :
         · exact absurd h' (Nat.ne_of_gt U_pos)
       by_cases hv : v < 1024
       · right
-        have e : mulPow2 (fin 0) v = scale (fin 0) v := by
-          have := (mulPow2_fin 0 v).1 hv (by rw [Nat.zero_mul]; exact Nat.two_pow_pos _)
-          rw [Nat.zero_mul] at this
-          rw [this]; rfl
-        exact ⟨e, by rw [e]; exact good_scale h v⟩
+        have := (mulPow2_fin 0 v).1 hv (by rw [Nat.zero_mul]; exact Nat.two_pow_pos _)
+        rw [Nat.zero_mul] at this
+        unfold B.Count.finalUnguarded B.Count.finalF
+        rw [this]; rfl
       · left
-        exact ⟨rfl, by omega, hc, (mulPow2_fin 0 v).2.2.2 (by omega)⟩
+        refine ⟨rfl, by omega, hc, ?_⟩
+        unfold B.Count.finalUnguarded
+        rw [(mulPow2_fin 0 v).2.2.2 (by omega)]; rfl
     · right
-      have e : mulPow2 (fin s) v = scale (fin s) v := (scale_fin_pos s v hs).symm
-      exact ⟨e, by rw [e]; exact good_scale h v⟩
+      unfold B.Count.finalUnguarded B.Count.finalF
+      have : (fin s).isZero = false := by
+        cases s with
+        | zero => exact absurd rfl hs
+        | succ s => rfl
+      rw [this]; simp
 
 end B.F64
 
@@ -406,6 +429,96 @@ theorem depthF_le {A : Arr} {n : Nat} (h : WFo A n) :
     have := varOf_le_wfo h A[p].high
     omega
 
+/-! a path visits every decision node at most once: `depthF ≤ size − 2` -/
+
+/-- number of decision nodes stored in `A` whose variable is at least `k` -/
+def cntGe (A : Arr) (k : Nat) : Nat :=
+  (List.range A.size).countP (fun q => decide (2 ≤ q) && decide (k ≤ (nodeAt A q).var))
+
+theorem countP_lt_of_witness {α : Type} (P Q : α → Bool) (l : List α) (a : α) (ha : a ∈ l)
+    (hPQ : ∀ x, P x = true → Q x = true) (hQa : Q a = true) (hPa : P a = false) :
+    l.countP P + 1 ≤ l.countP Q := by
+  induction l with
+  | nil => cases ha
+  | cons b l ih =>
+    rw [List.countP_cons, List.countP_cons]
+    rcases List.mem_cons.1 ha with hab | hal
+    · subst hab
+      have := List.countP_mono_left (l := l) (p := P) (q := Q) (fun x _ hx => hPQ x hx)
+      simp only [hQa, hPa, if_true]
+      simp
+      exact this
+    · have := ih hal
+      by_cases hb : P b = true
+      · simp only [hb, hPQ b hb, if_true]; omega
+      · have hb' : P b = false := by cases h : P b <;> simp_all
+        simp only [hb', Bool.false_eq_true, if_false]
+        omega
+
+theorem cntGe_step (A : Arr) (p k : Nat) (hp2 : 2 ≤ p) (hp : p < A.size) (hk : (nodeAt A p).var = k) :
+    cntGe A (k + 1) + 1 ≤ cntGe A k := by
+  unfold cntGe
+  apply countP_lt_of_witness _ _ _ p (List.mem_range.2 hp)
+  · intro x hx
+    simp only [Bool.and_eq_true, decide_eq_true_eq] at hx ⊢
+    exact ⟨hx.1, by omega⟩
+  · simp only [Bool.and_eq_true, decide_eq_true_eq]; exact ⟨hp2, by omega⟩
+  · simp only [Bool.and_eq_false_imp, decide_eq_true_eq, decide_eq_false_iff_not]; intro _; omega
+
+theorem cntGe_mono (A : Arr) {k k' : Nat} (h : k ≤ k') : cntGe A k' ≤ cntGe A k := by
+  unfold cntGe
+  apply List.countP_mono_left
+  intro x _ hx
+  simp only [Bool.and_eq_true, decide_eq_true_eq] at hx ⊢
+  exact ⟨hx.1, by omega⟩
+
+theorem countP_ge_two_range (m : Nat) (Q : Nat → Bool) (hQ : ∀ q, Q q = true → 2 ≤ q) :
+    (List.range m).countP Q ≤ m - 2 := by
+  induction m with
+  | zero => simp
+  | succ m ih =>
+    rw [List.range_succ, List.countP_append, List.countP_singleton]
+    by_cases hm : Q m = true
+    · have := hQ m hm
+      simp only [hm, if_true]; omega
+    · simp only [hm]; simp; omega
+
+theorem cntGe_le_size (A : Arr) (k : Nat) : cntGe A k ≤ A.size - 2 := by
+  unfold cntGe
+  apply countP_ge_two_range
+  intro q hq
+  simp only [Bool.and_eq_true, decide_eq_true_eq] at hq
+  exact hq.1
+
+/-- the longest path below `p` has at most as many decision nodes as `A` stores at the levels from that
+    of `p` on -/
+theorem depthF_le_cntGe {A : Arr} {n : Nat} (h : WFo A n) :
+    ∀ f p, p < A.size → depthF A f p ≤ cntGe A (varOf A n p) := by
+  intro f
+  induction f with
+  | zero => intro p _; cases p with
+    | zero => simp [depthF]
+    | succ p => cases p <;> simp [depthF]
+  | succ f ih =>
+    intro p hp
+    by_cases h0 : p = 0
+    · subst h0; rw [depthF_zero]; exact Nat.zero_le _
+    by_cases h1 : p = 1
+    · subst h1; rw [depthF_one]; exact Nat.zero_le _
+    have hp2 : 2 ≤ p := by omega
+    have hnd : A[p]? = some A[p] := by simp [hp]
+    obtain ⟨hv, hl, hh, hvl, hvh⟩ := h.inner p A[p] hp2 hnd
+    have hvar : varOf A n p = A[p].var := varOf_node p _ hp2 hnd
+    rw [depthF_succ A f p hp2, nodeAt_eq hp, hvar]
+    have i1 := Nat.le_trans (ih A[p].low hl) (cntGe_mono A (show A[p].var + 1 ≤ varOf A n A[p].low by omega))
+    have i2 := Nat.le_trans (ih A[p].high hh) (cntGe_mono A (show A[p].var + 1 ≤ varOf A n A[p].high by omega))
+    have := cntGe_step A p A[p].var hp2 hp (by rw [nodeAt_eq hp])
+    omega
+
+theorem depthF_le_size {A : Arr} {n : Nat} (h : WFo A n) (f p : Nat) (hp : p < A.size) :
+    depthF A f p ≤ A.size - 2 :=
+  Nat.le_trans (depthF_le_cntGe h f p hp) (cntGe_le_size A _)
+
 /-- the sharper form of `cardFF_good`: one rounding per decision node on the longest path below `p` -/
 theorem cardFF_good_depth {A : Arr} {n : Nat} (h : WFo A n) :
     ∀ f p, p < A.size → n - varOf A n p < f →
@@ -506,17 +619,23 @@ theorem exactCard_size_one {A : Arr} (h1 : A.size = 1) : exactCard A = 0 := by
   rw [if_neg (by omega), if_pos h1]
 
 /-- `cardinality` in terms of the plain recursion -/
-theorem cardF64O_eq {A : Arr} {n : Nat} (h : WFo A n) (h2 : 2 ≤ A.size) :
-    cardF64O A = .ok (let r := mulPow2 (cardFF A (n + 1) (root A)) (varAt A (root A));
-                      if r.isNan then F64.inf else r) := by
-  unfold cardF64O
+theorem cardF64With_eq {A : Arr} {n : Nat} (h : WFo A n) (h2 : 2 ≤ A.size) (fin : F64 → Nat → F64) :
+    cardF64With fin A = .ok (fin (cardFF A (n + 1) (root A)) (varAt A (root A))) := by
+  unfold cardF64With
   rw [if_neg (by omega), if_neg (by omega), cardOk_of_wfo h]
   simp only [Bool.not_true, Bool.false_eq_true, if_false]
   rw [cardCacheF_root h]
 
-theorem cardF64O_size_one {A : Arr} (h1 : A.size = 1) : cardF64O A = .ok F64.zero := by
-  unfold cardF64O
+theorem cardF64O_eq {A : Arr} {n : Nat} (h : WFo A n) (h2 : 2 ≤ A.size) :
+    cardF64O A = .ok (finalF (cardFF A (n + 1) (root A)) (varAt A (root A))) := cardF64With_eq h h2 _
+
+theorem cardF64With_size_one {A : Arr} (h1 : A.size = 1) (fin : F64 → Nat → F64) :
+    cardF64With fin A = .ok F64.zero := by
+  unfold cardF64With
   rw [if_neg (by omega), if_pos h1]
+
+theorem cardF64O_size_one {A : Arr} (h1 : A.size = 1) : cardF64O A = .ok F64.zero :=
+  cardF64With_size_one h1 _
 
 theorem varAt_root_le {A : Arr} {n : Nat} (h : WFo A n) : varAt A (root A) ≤ n := by
   rw [varAt_eq_varOf h _ (root_lt_size (wfo_size_pos h))]
